@@ -23,7 +23,7 @@ func RegoString(s string) string {
 			b.WriteString(`\r`)
 		case r == '\t':
 			b.WriteString(`\t`)
-		case r < 0x20 || r == 0x7f || r == 0x2028 || r == 0x2029:
+		case r < 0x20 || r == 0x7f || r == 0x2028 || r == 0x2029 || r == 0xfeff:
 			fmt.Fprintf(&b, `\u%04x`, r)
 		default:
 			b.WriteRune(r)
